@@ -23,6 +23,15 @@ Identifier-level value flow, computed from the `ast` of the CURRENT source tree:
     the guard is discharged (unguarded flow); `bool(H)` / `H` -> renamed to H; otherwise kept.
     The hidden flag of an interact event is the co-indexed guard of the event input (`event[2]` guards
     `event[0]`): resolved per tuple literal at the call sites.
+  * objects with a generated repr: an identifier that holds an instance of a `@dataclass` of the package (no
+    `__repr__` of its own) and flows into a sink AS A WHOLE (`f"{self.plugin_transport_args}"`, `repr(args)`,
+    `"%s" % args`, `asdict(args)`; NOT `args.host`, which is the flow of `host` only) stands for every field the
+    generated repr prints (inherited ones included, `field(repr=False)` excluded) and for what the constructor calls
+    of the package store into those fields.  Which identifiers hold such an object: parameters / annotated
+    assignments whose annotation names the dataclass (resolved in the same file first, by name over the package
+    otherwise), `x = C(...)`, attribute stores of such identifiers (class family for self, package-wide otherwise),
+    and — the objects travel through untyped factories — any identifier with the name of such a holder (leading
+    underscores ignored).
 
 What is decided about the table (no secret identifier reaches a sink unguarded) is decided in Coq
 (model/Secrets.v [sinks_ok], props/C12.v by vm_compute).  This file only extracts."""
@@ -109,6 +118,56 @@ class Func:
                 else:
                     self.other_loads.add(n.attr)
         self.qual = "%s%s" % (cls + "." if cls else "", self.name)
+        # identifiers annotated with a type: ident -> set of class names mentioned by the annotation
+        self.annot = {}
+        for x in a.posonlyargs + a.args + a.kwonlyargs:
+            if x.annotation is not None:
+                self.annot.setdefault(x.arg, set()).update(_annot_names(x.annotation))
+
+
+def _annot_names(e):
+    """class names an annotation mentions (Optional[C], "C", mod.C, Union[...] ...)"""
+    out = set()
+    for n in ast.walk(e):
+        if isinstance(n, ast.Name):
+            out.add(n.id)
+        elif isinstance(n, ast.Attribute):
+            out.add(n.attr)
+        elif isinstance(n, ast.Constant) and isinstance(n.value, str):
+            for w in n.value.replace("[", " ").replace("]", " ").replace(",", " ").replace(".", " ").split():
+                out.add(w)
+    return out
+
+
+def _is_dataclass_deco(d):
+    if isinstance(d, ast.Call):
+        d = d.func
+    return (isinstance(d, ast.Name) and d.id == "dataclass") or (isinstance(d, ast.Attribute) and d.attr == "dataclass")
+
+
+def _dataclass_fields(node):
+    """(is dataclass with a GENERATED repr, [field names the generated repr prints]) of a ClassDef"""
+    deco = [d for d in node.decorator_list if _is_dataclass_deco(d)]
+    if not deco:
+        return False, []
+    for d in deco:
+        if isinstance(d, ast.Call):
+            for k in d.keywords:
+                if k.arg == "repr" and _const_bool(k.value) is False:
+                    return False, []
+    fields = []
+    for st in node.body:
+        if isinstance(st, (ast.FunctionDef, ast.AsyncFunctionDef)) and st.name == "__repr__":
+            return False, []          # its own __repr__: a sink row of its own
+        if isinstance(st, ast.AnnAssign) and isinstance(st.target, ast.Name):
+            if "ClassVar" in _annot_names(st.annotation):
+                continue
+            v = st.value
+            if isinstance(v, ast.Call) and (getattr(v.func, "id", None) == "field" or getattr(v.func, "attr", None) == "field") \
+                    and any(k.arg == "repr" and _const_bool(k.value) is False for k in v.keywords):
+                continue
+            fields.append(st.target.id)
+    return True, fields
 
 
 def _const_bool(e):
@@ -211,6 +270,59 @@ def flows(e, g=frozenset()):
     raise ValueError("gen_sinks: unexpected expression node %s" % type(e).__name__)
 
 
+# calls whose result shows the argument object itself (its repr / its fields)
+SHOWING_CALLS = {"str", "repr", "ascii", "format", "asdict", "astuple", "vars", "dict", "list", "tuple", "sorted", "pformat"}
+SHOWING_METHODS = {"format", "join", "format_map", "__repr__", "__str__", "__format__"}
+
+
+def whole_flows(e):
+    """identifiers whose OBJECT (not a value derived from it by an attribute access or an opaque call) is formatted into
+    the value of expression e: `f"{x}"`, `"%s" % x`, `"..." + str(x)`, `repr(x)`, `(x, y)`, `x if c else y` -> x;
+    `x.host`, `len(x)`, `self.transport.read()` -> nothing"""
+    if e is None or isinstance(e, (ast.Constant, ast.Compare, ast.Lambda, ast.Slice)):
+        return set()
+    if isinstance(e, ast.Name):
+        return {e.id}
+    if isinstance(e, ast.Attribute):
+        return {e.attr}
+    if isinstance(e, ast.Subscript):
+        return whole_flows(e.value)
+    if isinstance(e, (ast.Tuple, ast.List, ast.Set)):
+        return set().union(*[whole_flows(x) for x in e.elts]) if e.elts else set()
+    if isinstance(e, ast.Dict):
+        return set().union(*[whole_flows(x) for x in list(e.keys) + list(e.values)]) if e.values else set()
+    if isinstance(e, ast.JoinedStr):
+        return set().union(*[whole_flows(x) for x in e.values]) if e.values else set()
+    if isinstance(e, ast.FormattedValue):
+        return whole_flows(e.value)
+    if isinstance(e, ast.BinOp):
+        return whole_flows(e.left) | whole_flows(e.right)
+    if isinstance(e, ast.BoolOp):
+        return set().union(*[whole_flows(x) for x in e.values])
+    if isinstance(e, ast.UnaryOp):
+        return set()
+    if isinstance(e, ast.IfExp):
+        return whole_flows(e.body) | whole_flows(e.orelse)
+    if isinstance(e, (ast.Starred, ast.Await, ast.NamedExpr, ast.Yield)):
+        return whole_flows(e.value)
+    if isinstance(e, ast.Call):
+        f = e.func
+        args = list(e.args) + [k.value for k in e.keywords]
+        if isinstance(f, ast.Name) and f.id in SHOWING_CALLS:
+            return set().union(*[whole_flows(x) for x in args]) if args else set()
+        if isinstance(f, ast.Attribute) and (f.attr in SHOWING_METHODS or f.attr in SHOWING_CALLS):
+            return whole_flows(f.value) | (set().union(*[whole_flows(x) for x in args]) if args else set())
+        if isinstance(f, ast.Name) and f.id[:1].isupper():
+            # construction of an exception / message object around the arguments: `raise Err(f"... {x}")`
+            return set().union(*[whole_flows(x) for x in args]) if args else set()
+        return set()
+    if isinstance(e, (ast.ListComp, ast.SetComp, ast.GeneratorExp)):
+        return whole_flows(e.elt) | set().union(*[whole_flows(g.iter) for g in e.generators])
+    if isinstance(e, ast.DictComp):
+        return whole_flows(e.key) | whole_flows(e.value) | set().union(*[whole_flows(g.iter) for g in e.generators])
+    raise ValueError("gen_sinks: unexpected expression node %s" % type(e).__name__)
+
+
 def _targets(t):
     if isinstance(t, ast.Name):
         return [t.id]
@@ -285,6 +397,8 @@ class Collector(ast.NodeVisitor):
     def visit_AnnAssign(self, node):
         if node.value is not None:
             self._assign(node.target, node.value)
+        for t in _targets(node.target):
+            self.fn.annot.setdefault(t, set()).update(_annot_names(node.annotation))
         self.generic_visit(node)
 
     def visit_AugAssign(self, node):
@@ -364,6 +478,7 @@ def parse_package(repo):
     funcs = []
     files = []
     bases = {}
+    dataclasses = {}     # (file, class name) -> (own fields printed by the generated repr, base names)
     root = os.path.join(repo, "scrapli")
     for d, _, fs in sorted(os.walk(root)):
         for f in sorted(fs):
@@ -382,6 +497,10 @@ def parse_package(repo):
                         n = b.id if isinstance(b, ast.Name) else b.attr if isinstance(b, ast.Attribute) else None
                         if n:
                             bases[ch.name].append(n)
+                    isdc, flds = _dataclass_fields(ch)
+                    if isdc:
+                        dataclasses[(rel, ch.name)] = (flds, [b.id if isinstance(b, ast.Name) else b.attr
+                                                              for b in ch.bases if isinstance(b, (ast.Name, ast.Attribute))])
                     walk(ch, ch.name)
                 elif isinstance(ch, (ast.FunctionDef, ast.AsyncFunctionDef)):
                     fn = Func(rel, cls, ch)
@@ -392,12 +511,12 @@ def parse_package(repo):
                     walk(ch, cls)
 
         walk(tree, None)
-    return files, funcs, bases
+    return files, funcs, bases, dataclasses
 
 
 class Analysis:
     def __init__(self, repo):
-        self.files, self.funcs, self.bases = parse_package(repo)
+        self.files, self.funcs, self.bases, self.dataclasses = parse_package(repo)
         self.by_name = {}
         for f in self.funcs:
             self.by_name.setdefault(f.name, []).append(f)
@@ -426,12 +545,87 @@ class Analysis:
                 if t.startswith("."):
                     for (val, _ctx) in vals:
                         self.attr_stores.setdefault(t[1:], []).append((f, val))
+        # dataclasses with a generated repr: fields (inherited included), constructor calls, holders
+        self.dc_by_name = {}
+        for (rel, name) in self.dataclasses:
+            self.dc_by_name.setdefault(name, []).append((rel, name))
+        self.ctor_sites = {}
+        for f in self.funcs:
+            for (c, _g) in f.calls:
+                n = c.func.id if isinstance(c.func, ast.Name) else c.func.attr if isinstance(c.func, ast.Attribute) else None
+                if n in self.dc_by_name:
+                    self.ctor_sites.setdefault(n, []).append((f, c))
+        self.attr_types = {}     # attribute name -> [(storing function, dataclass keys)]
+        self.holder_names = {}   # identifier name without leading underscores -> dataclass keys
+        for f in self.funcs:
+            for ident in set(f.annot) | set(f.assign):
+                ks = self.local_types(f, ident)
+                if ks and not ident.startswith("."):
+                    self.holder_names.setdefault(ident.lstrip("_"), set()).update(ks)
+            for t, vals in f.assign.items():
+                if not t.startswith("."):
+                    continue
+                ks = set(self.local_types(f, t))
+                for (val, _ctx) in vals:
+                    if isinstance(val, ast.Name):
+                        ks |= self.local_types(f, val.id)
+                if ks:
+                    self.attr_types.setdefault(t[1:], []).append((f, ks))
+                    self.holder_names.setdefault(t[1:].lstrip("_"), set()).update(ks)
         # call sites per callee function
         self.sites = {}
         for f in self.funcs:
             for (c, g) in f.calls:
                 for callee in self.resolve(f, c):
                     self.sites.setdefault(id(callee), []).append((f, c, g))
+
+    def dc_resolve(self, file, names):
+        """dataclass keys the class names stand for: the class of that name in the same file, any of the package else"""
+        out = set()
+        for n in names:
+            if (file, n) in self.dataclasses:
+                out.add((file, n))
+            else:
+                out.update(self.dc_by_name.get(n, []))
+        return out
+
+    def dc_fields(self, key, _seen=None):
+        """fields the generated repr of the dataclass prints (base classes' fields included)"""
+        seen = _seen if _seen is not None else set()
+        if key in seen:
+            return []
+        seen.add(key)
+        own, bs = self.dataclasses[key]
+        out = []
+        for b in bs:
+            for k in sorted(self.dc_resolve(key[0], [b])):
+                out += [x for x in self.dc_fields(k, seen) if x not in out]
+        return out + [x for x in own if x not in out]
+
+    def local_types(self, f, ident):
+        """dataclass keys of what `ident` holds inside f, from its annotation or a constructor call assigned to it"""
+        ks = self.dc_resolve(f.file, f.annot.get(ident, ()))
+        for (val, _ctx) in f.assign.get(ident, []):
+            if isinstance(val, ast.Call):
+                n = val.func.id if isinstance(val.func, ast.Name) else val.func.attr if isinstance(val.func, ast.Attribute) else None
+                if n in self.dc_by_name:
+                    ks |= self.dc_resolve(f.file, [n])
+        return ks
+
+    def holder_types(self, f, ident):
+        """dataclass keys of the object the identifier holds when it is used as a whole (most specific source first:
+        annotation / constructor in the function, typed attribute stores, the holder's name over the package)"""
+        ks = self.local_types(f, ident)
+        if ks:
+            return ks
+        if ident in f.self_loads or ident in f.other_loads:
+            fam = self.family.get(f.cls, {f.cls}) if f.cls else set()
+            for (g, k2) in self.attr_types.get(ident, []):
+                if ident in f.other_loads or g.cls in fam:
+                    ks |= k2
+            if ks:
+                return ks
+        return set(self.holder_names.get(ident.lstrip("_"), ()))
 
     def resolve(self, caller, call):
         """functions a call may reach (by name, narrowed by what the receiver expression says)"""
@@ -525,6 +719,52 @@ class Analysis:
                         todo.append((caller, j, g))
         return out
 
+    def whole_objects(self, fn, exprs):
+        """[(function, identifier)] that reach the sink expressions AS A WHOLE OBJECT in a formatting position (see
+        whole_flows), through local assignments, parameters <- call-site arguments and attribute loads <- stores"""
+        todo = [(fn, i) for e in exprs for i in whole_flows(e)]
+        seen, out = set(), []
+        while todo:
+            f, ident = todo.pop()
+            if (id(f), ident) in seen:
+                continue
+            seen.add((id(f), ident))
+            out.append((f, ident))
+            for (val, _ctx) in f.assign.get(ident, []):
+                todo += [(f, j) for j in whole_flows(val)]
+            if ident in f.self_loads or ident in f.other_loads:
+                fam = self.family.get(f.cls, {f.cls}) if f.cls else set()
+                for (g, val) in self.attr_stores.get(ident, []):
+                    if ident in f.other_loads or g.cls in fam:
+                        todo += [(g, j) for j in whole_flows(val)]
+            if ident in f.params:
+                for (caller, call, _cg) in self.sites.get(id(f), []):
+                    arg = self.bound(f, call, ident)
+                    if arg is not None:
+                        todo += [(caller, j) for j in whole_flows(arg)]
+        return out
+
+    def object_field_flows(self, fn, exprs, ctxg):
+        """flows a sink gets from objects with a generated repr that reach it as a whole: every field the repr prints
+        and what the package's constructor calls store into those fields (closed like any other flow)"""
+        res = set()
+        for (f, ident) in self.whole_objects(fn, exprs):
+            for key in sorted(self.holder_types(f, ident)):
+                flds = self.dc_fields(key)
+                for fld in flds:
+                    res.add((fld, frozenset(ctxg)))
+                for (caller, call) in self.ctor_sites.get(key[1], []):
+                    for i, fld in enumerate(flds):
+                        arg = None
+                        for k in call.keywords:
+                            if k.arg == fld:
+                                arg = k.value
+                        if arg is None and i < len(call.args) and not any(isinstance(x, ast.Starred) for x in call.args[: i + 1]):
+                            arg = call.args[i]
+                        if arg is not None:
+                            res |= self.close(caller, {(j, frozenset(ctxg) | g2) for (j, g2) in flows(arg)})
+        return res
+
     def resolve_guards(self, fn, call, gs):
         """guards of a flow inside fn, seen from the call site: None = dead flow"""
         out = set()
@@ -614,7 +854,7 @@ def generate(outdir, repo=None):
             fl = set()
             for e in exprs:
                 fl |= flows(e, ctxg)
-            closed = an.close(fn, fl)
+            closed = an.close(fn, fl) | an.object_field_flows(fn, exprs, ctxg)
             # a sink with an element-guarded loop variable: v[0] carries the guard only if it is on the path
             merged = {}
             for (i, gs) in closed:
